@@ -17,13 +17,13 @@ from common import bits, unbits, fb, close, canon_hash
 
 # ---- tolerances (see notes/C06.md for how they were calibrated)
 POLY_REL = 1e-12        # normal-equation residual relative to its magnitude, beyond the FB bound
-POLY_COV_EPS = 1e-13    # covariance: relative difference allowed per unit of condition number
+POLY_COV_EPS = 1e-12    # covariance: relative difference allowed per unit of condition number
 KAPPA_MAX = 1e8         # condition estimate beyond which a case is counted as skipped
 COS_MAX = 5e-4          # stationarity: sqrt(g^T (J^T W J)^-1 g) / ||r/s||  (scipy ftol = 1.49e-8
 #                         bounds the relative excess of S by ftol, i.e. this cosine by 1.2e-4)
 XTOL_SLACK = 2e-7       # see judge_c06: residuals of size xtol*|y/s| are not judged
-NL_COV_REL = 3e-3       # scipy's covariance comes from the forward-difference Jacobian of the
-#                         last-but-one iterate: observed up to 4e-5
+NL_COV_REL = 1e-2       # scipy's covariance comes from MINPACK's forward-difference Jacobian:
+#                         largest difference seen in 280 000 fits 1.5e-3 (typical 1e-6..1e-4)
 NOISE_FREE_REL = 1e-6
 
 
@@ -153,7 +153,7 @@ def judge_c06(case, o, r):
         fac = unbits(r["fac"])
         # residual-scaled covariance; meaningless when the data are fitted exactly
         if not fails and S > 1e-18 * max(1.0, sum(abs(v) for v in mag)):
-            tol = POLY_COV_EPS * kappa + 1e-11
+            tol = POLY_COV_EPS * kappa + 1e-10
             for i in range(m):
                 for j in range(m):
                     sc = math.sqrt(cov[i][i] * cov[j][j])
@@ -296,7 +296,7 @@ def run_c06(ctx, cases, ref=False):
                                             "kappa": unbits(r["kappa"])}})
     dist.update(PARTIAL)
     dist = dict(dist)
-    dist["largest-value-seen (tolerances: poly 64*FB+1e-12, cov 1e-13*kappa, cosine 5e-4, cov 3e-3)"] = \
+    dist["largest-value-seen (tolerances: poly 64*FB+1e-12, cov 1e-12*kappa, cosine 5e-4, cov 1e-2)"] = \
         {k: float("%.3g" % v) for k, v in MARGIN.items()}
     return {"evaluations": len(idx) + len(raised), "nontrivial": nontrivial, "failures": failures,
             "samples": samples, "distribution": dict(dist), "skipped": skipped}
